@@ -1,11 +1,15 @@
 (* C05 — results do not depend on the order in which species are listed.
    What is a theorem: every species sum is permutation invariant (density, element totals, Stewart-Pyatt effective
-   charge, emission); the relaxation factor is a minimum and the constraint residuals are sums.  NOT a theorem:
+   charge, emission); the reference-energy chains (model RefEnergy.E0_of / E0_list, tied to the code by recorded iterations)
+   give every species the same value for every listing order as soon as (stoichiometry, charge) pairs are distinct; the
+   viscosity system in another listing order is solved by the re-indexed solution and gives the same viscosity; every
+   regenerated transport block, both assembled systems, their right-hand sides and every final formula (viscosity, k',
+   D_ij, D^T_i, electrical conductivity, total thermal conductivity assembly) are equivariant / invariant under re-listing.  NOT a theorem:
    equivariance of the whole converged solve (as C04) and of the linear transport solves; validated on permuted
    species lists on the implementation. *)
 From Coq Require Import Reals List ZArith Permutation.
 Import ListNotations.
-From MPC Require Import Num Species RInst StatMech RVec Radiation GenSpecies GenRadiation RefEnergy Gibbs C04_proofs C07_proofs C15_proofs.
+From MPC Require Import Num Species RInst StatMech RVec RSumIdx Radiation GenSpecies GenRadiation GenTransport Transport RefEnergy Gibbs C04_proofs C05_chain C07_proofs C15_proofs C12_split C05_transport C05_blocks.
 Open Scope R_scope.
 
 Theorem C05_density_perm : forall (U : Units R) (l l' : list (R * species R)),
@@ -37,3 +41,64 @@ Theorem C05_level_sum_perm : forall (U : Units R) (IE : R) (l l' : list (R * R))
   Permutation l l' -> Zint_mono_spec (k_b U) IE l T dE = Zint_mono_spec (k_b U) IE l' T dE.
 Proof. exact Zint_mono_spec_perm. Qed.
 Print Assumptions C05_level_sum_perm.
+
+(* reference-energy chains: the value attached to every species is the same for every listing order *)
+Theorem C05_reference_chain_perm : forall (l l' : list (species R * R)),
+  Permutation l l' -> keys_distinct l ->
+  (forall fuel spd, E0_of RNum fuel l spd = E0_of RNum fuel l' spd) /\
+  Permutation (combine (map fst l) (E0_list RNum (map fst l) (map snd l)))
+              (combine (map fst l') (E0_list RNum (map fst l') (map snd l'))).
+Proof. intros l l' HP HD. split; [apply E0_of_perm; assumption | apply E0_list_perm; assumption]. Qed.
+Print Assumptions C05_reference_chain_perm.
+
+(* transport, viscosity: any re-listing sigma (a bijection of the index range with inverse tau) of masses, densities and
+   collision integrals; blocks as assembled by the code (Transport.qhatblock); any solution x *)
+Theorem C05_viscosity_perm_invariant :
+  forall (U : Units R) (T : R) (masses nd : nat -> R) (nb : nat) (sigma tau : nat -> nat) (Qbar : nat -> nat -> nat -> nat -> R),
+  (forall i, 0 < masses i) -> (forall i, (i < nb)%nat -> (sigma i < nb)%nat) -> (forall i, (i < nb)%nat -> tau (sigma i) = i) ->
+  forall x : nat -> nat -> R,
+  visc_rows U T masses nd nb (qints_of Qbar) x ->
+  visc_rows U T (masses_p masses sigma) (nd_p nd sigma) nb (qints_of (Qbar_p sigma Qbar)) (fun p i => x p (sigma i)) /\
+  visc_value RNum U T (nd_p nd sigma) nb (fun i => x 0%nat (sigma i)) = visc_value RNum U T nd nb (x 0%nat).
+Proof. intros U T masses nd nb sigma tau Qbar Hm Hs Hts x. apply (viscosity_perm_invariant U T masses nd nb sigma tau Qbar Hm Hs Hts). Qed.
+Print Assumptions C05_viscosity_perm_invariant.
+
+(* all regenerated blocks as assembled by the code, straight from the generated definitions (q22 / q23 as they stand) *)
+Theorem C05_blocks_equivariant : forall (nb : nat) (sigma tau : nat -> nat),
+  (forall i, (i < nb)%nat -> (sigma i < nb)%nat) -> (forall i, (i < nb)%nat -> tau (sigma i) = i) ->
+  forall (masses nd : nat -> R) (Q : @qints R) (p p' i j : nat), (i < nb)%nat -> (j < nb)%nat ->
+  qblock RNum (qints_p sigma Q) (fun i => masses (sigma i)) nb (fun i => nd (sigma i)) p p' i j = qblock RNum Q masses nb nd p p' (sigma i) (sigma j) /\
+  qhatblock RNum (qints_p sigma Q) (fun i => masses (sigma i)) nb (fun i => nd (sigma i)) p p' i j = qhatblock RNum Q masses nb nd p p' (sigma i) (sigma j).
+Proof. intros nb sigma tau Hs Hts masses nd Q p p' i j Hi Hj. split; [apply (qblock_perm nb sigma tau Hs Hts) | apply (qhatblock_perm nb sigma tau Hs Hts)]; assumption. Qed.
+Print Assumptions C05_blocks_equivariant.
+
+(* any solution of either linear system, re-indexed, solves the re-listed system with the re-indexed right-hand side *)
+Theorem C05_systems_equivariant : forall (nb : nat) (sigma tau : nat -> nat),
+  (forall i, (i < nb)%nat -> (sigma i < nb)%nat) -> (forall i, (i < nb)%nat -> tau (sigma i) = i) ->
+  forall (masses nd : nat -> R) (Q : @qints R) (rhs x : nat -> nat -> R),
+  (q_rows nb masses nd Q rhs x ->
+   q_rows nb (fun i => masses (sigma i)) (fun i => nd (sigma i)) (qints_p sigma Q) (fun p i => rhs p (sigma i)) (fun p i => x p (sigma i))) /\
+  (qhat_rows nb masses nd Q rhs x ->
+   qhat_rows nb (fun i => masses (sigma i)) (fun i => nd (sigma i)) (qints_p sigma Q) (fun p i => rhs p (sigma i)) (fun p i => x p (sigma i))).
+Proof. intros nb sigma tau Hs Hts masses nd Q rhs x. split; [apply (q_rows_perm nb sigma tau Hs Hts) | apply (qhat_rows_perm nb sigma tau Hs Hts)]. Qed.
+Print Assumptions C05_systems_equivariant.
+
+(* ... and every final formula returns the same number *)
+Theorem C05_outputs_invariant : forall (nb : nat) (sigma tau : nat -> nat),
+  (forall i, (i < nb)%nat -> (sigma i < nb)%nat) -> (forall i, (i < nb)%nat -> tau (sigma i) = i) ->
+  forall (masses nd : nat -> R) (U : Units R) (T rho ntot lim kdash : R) (dt : bool) (b0 a1 charges De hv DT dxdT : nat -> R) (D : nat -> nat -> R),
+  visc_value RNum U T (fun i => nd (sigma i)) nb (fun i => b0 (sigma i)) = visc_value RNum U T nd nb b0 /\
+  kdash_value RNum U T (fun i => masses (sigma i)) (fun i => nd (sigma i)) nb (fun i => a1 (sigma i)) = kdash_value RNum U T masses nd nb a1 /\
+  sigma_value RNum U rho ntot T (fun i => masses (sigma i)) (fun i => nd (sigma i)) (fun j => charges (sigma j)) nb (fun j => De (sigma j))
+    = sigma_value RNum U rho ntot T masses nd charges nb De /\
+  kappa_total RNum U dt rho ntot T lim (fun i => masses (sigma i)) (fun i => nd (sigma i)) (fun i => hv (sigma i)) (fun i => DT (sigma i))
+              (fun i => dxdT (sigma i)) (fun i j => D (sigma i) (sigma j)) nb kdash
+    = kappa_total RNum U dt rho ntot T lim masses nd hv DT dxdT D nb kdash.
+Proof.
+  intros nb sigma tau Hs Hts masses nd U T rho ntot lim kdash dt b0 a1 charges De hv DT dxdT D. repeat split.
+  - apply (visc_value_perm nb sigma tau Hs Hts).
+  - apply (kdash_value_perm nb sigma tau Hs Hts).
+  - apply (sigma_value_perm nb sigma tau Hs Hts).
+  - apply (kappa_total_perm nb sigma tau Hs Hts).
+Qed.
+Print Assumptions C05_outputs_invariant.
